@@ -4,17 +4,21 @@
    Json/C14nProofs.v, or a witness by vm_compute.
 
    Reading guide
-     canon        c14n.CanonicalJSON as the code is AFTER the patches fixes/C07-*.diff (Json/C14n.v,
+     canon        c14n.CanonicalJSON as the code is AFTER the six repairs (Json/C14n.v,
                   canon_at cfg_fixed): result Ok bytes | Err kind | Panic
-     canon_today  the same function as the code stands in /repo today (canon_at cfg_today); the
-                  `_refuted` theorems below are about it, their witnesses are replayed on the Go
-                  implementation by tools/props/c07.py
+     canon_today  the same function as the code stood when first examined (canon_at cfg_today)
+     canon_signed_zero  the code after the first five repairs, before Float.MarshalJSON's
+                  `if f == 0 { f = 0 }` (canon_at cfg_signed_zero); the `_refuted` theorems below are
+                  about these two, their witnesses are replayed on the Go implementation by
+                  tools/props/c07.py
      parse        the fixed code's reader without Object.Sort: one complete JSON value -> jv, members
                   in text order (duplicates and nulls kept)
      print        the fixed code's MarshalJSON
      norm v       members sorted byte-wise by name and null members dropped, recursively
+     unsign v     every float zero of v without its sign (-0.0 and 0.0 are the same number; every
+                  other value is left alone, unsign_changes_only_negative_zero)
      floats_ok v  premise: for every float in v, Float.MarshalJSON's text has the shape -?d.d+E-?d+
-                  and strconv.ParseFloat reads it back as the same float.  strconv is external code:
+                  and strconv.ParseFloat reads it back as the same float (a zero: as zero).  strconv is external code:
                   its stand-in (Json/Number.v) is validated differentially, not verified; for
                   float-free values the premise is discharged (theorems ..._float_free).
    The tie to c14n/*.go is the correspondence check of tools/props/c07.py. *)
@@ -59,6 +63,33 @@ Theorem canon_ignores_member_order t1 t2 v1 v2 o1 o2 :
 Proof. exact (canon_member_order t1 t2 v1 v2 o1 o2). Qed.
 Print Assumptions canon_ignores_member_order.
 
+(* ... and neither does the sign of a float zero: two texts whose values differ only in member
+   order, null members and the sign of zeros have the same canonical form (no float premise) *)
+Theorem canon_sign_of_zero_invariant t1 t2 v1 v2 o1 o2 :
+  parse t1 = Ok v1 -> parse t2 = Ok v2 -> unsign (norm v1) = unsign (norm v2) ->
+  canon t1 = Ok o1 -> canon t2 = Ok o2 -> o1 = o2.
+Proof. exact (canon_invariant_zero t1 t2 v1 v2 o1 o2). Qed.
+Print Assumptions canon_sign_of_zero_invariant.
+
+(* zero has a single float form, whatever its sign *)
+Theorem float_zero_has_one_form neg e : float_marshal cfg_fixed (F64 neg 0 e) = bs "0.0E0".
+Proof. exact (float_marshal_zero neg e). Qed.
+Print Assumptions float_zero_has_one_form.
+
+(* unsign touches nothing but the sign bit of a zero *)
+Theorem unsign_changes_only_negative_zero neg m e :
+  unsign_zero (F64 neg m e) = if m =? 0 then F64 false 0 0 else F64 neg m e.
+Proof. exact (eq_refl _). Qed.
+Print Assumptions unsign_changes_only_negative_zero.
+
+Theorem unsign_is_idempotent v : unsign (unsign v) = unsign v.
+Proof. exact (unsign_idem v). Qed.
+Print Assumptions unsign_is_idempotent.
+
+Theorem unsign_commutes_with_norm v : norm (unsign v) = unsign (norm v).
+Proof. exact (norm_unsign v). Qed.
+Print Assumptions unsign_commutes_with_norm.
+
 Theorem norm_is_idempotent v : norm (norm v) = norm v.
 Proof. exact (norm_idem v). Qed.
 Print Assumptions norm_is_idempotent.
@@ -79,8 +110,9 @@ Print Assumptions norm_keeps_array_elements.
 (* (b) parsing the canonical form gives back the content; different content, different form        *)
 (* ---------------------------------------------------------------------------------------------- *)
 
-(* value level: what print writes for a readable value is read back as that value minus null members *)
-Theorem print_then_parse v o : print v = Ok o -> readable v -> parse o = Ok (strip v).
+(* value level: what print writes for a readable value is read back as that value minus null
+   members and the sign of zeros *)
+Theorem print_then_parse v o : print v = Ok o -> readable v -> parse o = Ok (strip (unsign v)).
 Proof. exact (parse_print v o). Qed.
 Print Assumptions print_then_parse.
 
@@ -105,7 +137,7 @@ Proof. exact (fun H T => conj (scan_number_int z rest T) (parse_int64_format z H
 Print Assumptions integer_round_trip.
 
 Theorem canon_parses_back_to_norm t v o :
-  parse t = Ok v -> floats_ok v -> canon t = Ok o -> parse o = Ok (norm v).
+  parse t = Ok v -> floats_ok v -> canon t = Ok o -> parse o = Ok (unsign (norm v)).
 Proof. exact (canon_parses_back t v o). Qed.
 Print Assumptions canon_parses_back_to_norm.
 
@@ -116,22 +148,28 @@ Print Assumptions float_premise_is_computable.
 
 Theorem canon_parses_back_to_norm_float_free t v o :
   parse t = Ok v -> float_free v = true -> canon t = Ok o -> parse o = Ok (norm v).
-Proof. exact (fun P F => canon_parses_back t v o P (floats_ok_float_free v F)). Qed.
+Proof. exact (canon_parses_back_float_free t v o). Qed.
 Print Assumptions canon_parses_back_to_norm_float_free.
 
-(* two inputs with different content never share a canonical form *)
+(* two inputs with different content never share a canonical form (content: norm, and a float
+   zero has no sign) *)
 Theorem canon_injective_on_content t1 t2 v1 v2 o :
   parse t1 = Ok v1 -> parse t2 = Ok v2 -> floats_ok v1 -> floats_ok v2 ->
-  canon t1 = Ok o -> canon t2 = Ok o -> norm v1 = norm v2.
+  canon t1 = Ok o -> canon t2 = Ok o -> unsign (norm v1) = unsign (norm v2).
 Proof. exact (canon_injective t1 t2 v1 v2 o). Qed.
 Print Assumptions canon_injective_on_content.
+
+(* both directions: same canonical form exactly when same content *)
+Theorem canon_same_form_iff_same_content t1 t2 v1 v2 o1 o2 :
+  parse t1 = Ok v1 -> parse t2 = Ok v2 -> floats_ok v1 -> floats_ok v2 ->
+  canon t1 = Ok o1 -> canon t2 = Ok o2 -> (o1 = o2 <-> unsign (norm v1) = unsign (norm v2)).
+Proof. exact (canon_same_form_iff t1 t2 v1 v2 o1 o2). Qed.
+Print Assumptions canon_same_form_iff_same_content.
 
 Theorem canon_injective_on_content_float_free t1 t2 v1 v2 o :
   parse t1 = Ok v1 -> parse t2 = Ok v2 -> float_free v1 = true -> float_free v2 = true ->
   canon t1 = Ok o -> canon t2 = Ok o -> norm v1 = norm v2.
-Proof.
-  exact (fun P1 P2 F1 F2 => canon_injective t1 t2 v1 v2 o P1 P2 (floats_ok_float_free v1 F1) (floats_ok_float_free v2 F2)).
-Qed.
+Proof. exact (canon_injective_float_free t1 t2 v1 v2 o). Qed.
 Print Assumptions canon_injective_on_content_float_free.
 
 (* ---------------------------------------------------------------------------------------------- *)
@@ -208,7 +246,9 @@ Example canon_on_the_witnesses :
   canon (bs "1 2") = Err ETrailing /\ canon (bs "{""a"":1}}") = Err ETrailing /\ canon (bs "01") = Err ETrailing /\
   canon (bs "1e400") = Err ERange /\
   canon (bs "{""a"":null,""b"":1}") = Ok (bs "{""b"":1}") /\
-  canon (bs "-1.5") = Ok (bs "-1.5E0") /\ canon (bs "-0.0") = Ok (bs "-0.0E0") /\
+  canon (bs "-1.5") = Ok (bs "-1.5E0") /\ canon (bs "-2e0") = Ok (bs "-2.0E0") /\
+  canon (bs "-0.0") = Ok (bs "0.0E0") /\ canon (bs "0.0") = Ok (bs "0.0E0") /\ canon (bs "-0e5") = Ok (bs "0.0E0") /\
+  canon (bs "-1e-400") = Ok (bs "0.0E0") /\ canon (bs "-0") = Ok (bs "0") /\
   canon ([x7b; x22; xff; x22; x3a] ++ bs "null}") = Err EUtf8.
 Proof. vm_compute. repeat split. Qed.
 
@@ -240,6 +280,28 @@ Proof.
   - vm_compute. reflexivity.
 Qed.
 
+(* ... and of negative zero, which is written without its sign and read back as zero *)
+Example float_premise_satisfiable_negative_zero : float_ok (F64 true 0 0) /\
+  float_marshal cfg_fixed (F64 true 0 0) = bs "0.0E0" /\ floats_okb (JArr [JFloat (F64 true 0 0)]) = true.
+Proof.
+  split; [split|split; vm_compute; reflexivity].
+  - exists [], (ch 48), [ch 48], [], [ch 48]. repeat split; try (vm_compute; reflexivity); auto; discriminate.
+  - vm_compute. reflexivity.
+Qed.
+
+(* the texts -0.0 and 0.0 differ as values and agree once unsigned *)
+Example sign_of_zero_hypotheses_satisfiable :
+  exists v1 v2 o, parse (bs "[-0.0,1]") = Ok v1 /\ parse (bs "[0.0,1]") = Ok v2 /\ v1 <> v2 /\
+    unsign (norm v1) = unsign (norm v2) /\ floats_ok v1 /\ floats_ok v2 /\
+    canon (bs "[-0.0,1]") = Ok o /\ canon (bs "[0.0,1]") = Ok o /\ o = bs "[0.0E0,1]".
+Proof.
+  eexists _, _, _. split; [vm_compute; reflexivity|]. split; [vm_compute; reflexivity|].
+  split; [vm_compute; discriminate|]. split; [vm_compute; reflexivity|].
+  split; [apply floats_okb_sound; vm_compute; reflexivity|].
+  split; [apply floats_okb_sound; vm_compute; reflexivity|].
+  repeat split; vm_compute; reflexivity.
+Qed.
+
 Example clean_utf8_examples :
   clean_utf8 [x61; xc3; xa9; xe2; x82; xac; xf0; x9f; x98; x80; x00; x7f] = true /\
   clean_utf8 [xef; xbf; xbd] = false /\ clean_utf8 [xff] = false /\ clean_utf8 [xed; xa0; x80] = false /\
@@ -258,7 +320,7 @@ Proof.
 Qed.
 
 (* ---------------------------------------------------------------------------------------------- *)
-(* what the code in /repo does TODAY: refuted properties, each with a witness (replayed on Go)      *)
+(* what the code did BEFORE its repairs: refuted properties, each with a witness (replayed on Go)   *)
 (* ---------------------------------------------------------------------------------------------- *)
 
 (* #4: the output is not JSON when the first member in key order is null and a later one is not *)
@@ -273,8 +335,8 @@ Print Assumptions canon_today_output_is_json_refuted.
 (* #5: negative floats are mangled *)
 Theorem canon_today_negative_float_refuted :
   exists t1 t2 o1 o2, canon_today t1 = Ok o1 /\ o1 = bs "-.01.5E0" /\ parse o1 = Err ESyntax /\
-                      canon_today t2 = Ok o2 /\ o2 = bs "-.00E0" /\ parse o2 = Err ESyntax.
-Proof. exists (bs "-1.5"), (bs "-0.0"), (bs "-.01.5E0"), (bs "-.00E0"). vm_compute. repeat split. Qed.
+                      canon_today t2 = Ok o2 /\ o2 = bs "-.02E0" /\ parse o2 = Err ESyntax.
+Proof. exists (bs "-1.5"), (bs "-2e0"), (bs "-.01.5E0"), (bs "-.02E0"). vm_compute. repeat split. Qed.
 Print Assumptions canon_today_negative_float_refuted.
 
 (* #6: empty input and input ending after a member name or colon panic *)
@@ -299,6 +361,18 @@ Theorem canon_today_out_of_range_refuted :
   canon_today (bs "{""a"":1e400}") = Ok (bs "{}") /\ parse (bs "1e400") = Err ERange.
 Proof. vm_compute. repeat split. Qed.
 Print Assumptions canon_today_out_of_range_refuted.
+
+(* the sign of zero (repaired last): the same number of the same type had two canonical forms,
+   canon_sign_of_zero_invariant was false of the code before `if f == 0 { f = 0 }` *)
+Theorem canon_signed_zero_two_forms_refuted :
+  exists t1 t2 v1 v2 o1 o2, parse t1 = Ok v1 /\ parse t2 = Ok v2 /\ unsign (norm v1) = unsign (norm v2) /\
+    canon_signed_zero t1 = Ok o1 /\ canon_signed_zero t2 = Ok o2 /\ o1 = bs "-0.0E0" /\ o2 = bs "0.0E0" /\ o1 <> o2 /\
+    canon t1 = Ok o2 /\ canon t2 = Ok o2.
+Proof.
+  exists (bs "-0.0"), (bs "0.0"), (JFloat (F64 true 0 0)), (JFloat (F64 false 0 0)), (bs "-0.0E0"), (bs "0.0E0").
+  vm_compute. repeat split. discriminate.
+Qed.
+Print Assumptions canon_signed_zero_two_forms_refuted.
 
 (* invalid UTF-8 in the name of a null member is accepted *)
 Theorem canon_today_invalid_utf8_accepted_refuted :
